@@ -9,6 +9,7 @@ M-EMPTY   where a function branches on the degenerate (0, 0) incidence shape, it
 M-DTYPE   where a builder branches on ``sparse``, both branches construct the matrix with the same element type (an int8 sparse
           incidence next to an int dense one makes every product of the sparse form wrap at 128).
 M-ZERO    a stored weight is never replaced by a default through truthiness (`x.get("weight") or 1` turns weight 0 into 1).
+M-ALIGN   sequences consumed pairwise (zip(Ls, Ks, weights)) were filtered / reordered identically on the way.
 M-NORM    the per-order normaliser of multiorder_laplacian (mean order-d degree) does not depend on rescale_per_node.
 Numerical equality with the textbook definitions is NOT decided.
 """
@@ -34,7 +35,7 @@ ROW_KIND = {
 def run(ctx):
     repo = ctx.repo
     res = Result(PROP)
-    res.rules = ["K1", "K2", "K5", "M-MAP", "M-EMPTY", "M-DTYPE", "M-ZERO", "M-NORM"]
+    res.rules = ["K1", "K2", "K5", "M-MAP", "M-EMPTY", "M-DTYPE", "M-ZERO", "M-ALIGN", "M-NORM"]
     res.explanation = (
         "Narrow claim: kind inference over the matrix builders plus provenance of the returned index maps, definite "
         "assignment in the degenerate-shape branches and a dependency check on the multi-order normaliser. The numerical "
@@ -60,6 +61,20 @@ def run(ctx):
                      "def _w(H, e):\n    return H.edges[e].get('weight') or 1\n",
                      lambda n: f"`{unparse(n, 60)}` replaces a stored value by a default whenever it is falsy; an edge weight of 0 (an admissible non-negative weight) is silently counted as the default, so the weighted matrices no longer equal their definitions",
                      "`<lookup> or <default>` on stored weights/attributes")
+        from .common import misaligned_zips
+
+        nz = 0
+        for fn in fns:
+            for z, sigs in misaligned_zips(fn.node):
+                vals = set(sigs.values())
+                # the mask of a filtering zip is allowed to differ from the sequence it filters only if the zip feeds a comprehension condition; data pairings must agree
+                nz += 1
+                ok = len(vals) == 1
+                res.inst("M-ALIGN", f"{fn.fq}:{z.lineno} zip({', '.join(sigs)}) pairs sequences with the same filtering history", ok)
+                if not ok:
+                    detail = "; ".join(f"{k}: {sorted(v) or 'as given'}" for k, v in sigs.items())
+                    res.add(mk_finding(PROP, "M-ALIGN", fn, z, f"{fn.qualname}: `{unparse(z, 50)}` pairs sequences that were filtered or reordered differently ({detail}); element i of one meets element j of another - a weight is applied to the wrong order", role="zip"))
+        res.floor("pairwise-consumed sequences in linalg", nz, 1)
     return res
 
 
